@@ -133,12 +133,34 @@ def lake_build(targets=()) -> tuple[bool, str]:
         fh.close()
 
 
-def grep_audit() -> list[str]:
+def import_closure(modules) -> list[Path]:
+    """Lean source files of `modules` and everything under SleapVerif they (transitively) import."""
+    seen: dict[str, Path] = {}
+    todo = list(modules)
+    while todo:
+        m = todo.pop()
+        if m in seen or not m.startswith("SleapVerif."):
+            continue
+        f = LEAN / (m.replace(".", "/") + ".lean")
+        if not f.exists():
+            continue
+        seen[m] = f
+        for line in f.read_text().splitlines():
+            mm = re.match(r"\s*(?:public\s+)?import\s+(SleapVerif\.[A-Za-z0-9_.]+)", line)
+            if mm:
+                todo.append(mm.group(1))
+    return sorted(seen.values())
+
+
+def grep_audit(modules=None) -> list[str]:
+    """Forbidden constructs (sorry, axiom, native_decide, …) outside comments.  With `modules`
+    given, only the import closure of those modules is scanned, so a file of another property
+    that is mid-edit cannot break this property's check; without, the whole library."""
     hits = []
-    for f in sorted((LEAN / "SleapVerif").rglob("*.lean")):
+    files = import_closure(modules) if modules else sorted((LEAN / "SleapVerif").rglob("*.lean"))
+    for f in files:
         in_block = 0
         for i, line in enumerate(f.read_text().splitlines(), 1):
-            # strip block comments (/- … -/, nesting ignored beyond depth count) and line comments
             s = line
             out = ""
             j = 0
@@ -266,7 +288,14 @@ class Check:
         if not ok:
             self.broken.append("lake build failed: " + log[-1500:])
             return
-        hits = grep_audit()
+        mods = list(self.build_targets)
+        reg_file = VERIF / "harness" / "translated_registry.json"
+        if reg_file.exists():
+            reg = json.loads(reg_file.read_text()).get(self.pid)
+            if reg:
+                mods += [reg["module"]] + list(reg.get("build_targets", []))
+        hits = grep_audit(mods)
+        self.extra["audited_files"] = len(import_closure(mods))
         if hits:
             self.broken.append("forbidden constructs: " + "; ".join(hits[:5]))
         res = axiom_audit(self.module, self.theorems)
